@@ -6,7 +6,7 @@ id=$1; out=$2; suite=${3:-}
 export GOFLAGS=-mod=mod GOPROXY=off
 wt=/tmp/sv/$id
 rm -rf $wt; mkdir -p /tmp/sv
-git -C /repo worktree add -q --detach $wt HEAD || exit 2
+git -C /repo worktree add -q --detach $wt ${SEEDBASE:-HEAD} || exit 2
 cd $wt
 cp $out/zz_seed_test.go .
 r1=$(go test -vet=off -count=1 -timeout 180s -run "TestSeeded$id" . 2>&1 | tail -3); echo "$r1" | grep -q '^ok' && echo "DEMO-BASE: pass" || { echo "DEMO-BASE: FAIL"; echo "$r1"; }
